@@ -10,3 +10,4 @@ CONSTANTS
   Resizes <- MiscResizes
   MaxDepth = 3
   Emit = TRUE
+  CheckDump = FALSE
